@@ -252,4 +252,52 @@ def softmixer [Inhabited α] (c : Consts) (nearest : Bool) : Mem α → List Voi
   | mem, [] => mem
   | mem, v :: vs => softmixer c nearest (runVoice c nearest mem v).1 vs
 
+/-! ## The one legal writer: `update_invloop` (src/player.c), Protracker invert-loop / funk repeat -/
+
+/-- `xc->invloop` -/
+structure InvState where
+  speed : Nat := 0
+  count : Int := 0
+  pos : Int := 0
+  deriving Repr, DecidableEq
+
+/-- what `update_invloop` reads of the channel's sample (`xxs`, `m->xtra[xc->smp]`) -/
+structure InvSample where
+  loop : Bool := false      -- XMP_SAMPLE_LOOP
+  sloop : Bool := false     -- XMP_SAMPLE_SLOOP
+  is16 : Bool := false      -- XMP_SAMPLE_16BIT
+  dataNull : Bool := false  -- xxs->data == NULL
+  lps : Int := 0
+  lpe : Int := 0
+  sus : Int := 0
+  sue : Int := 0
+  deriving Repr, DecidableEq
+
+/-- `lps`/`len` as computed by `update_invloop`: the loop, else the sustain loop, else `(0, -1)`. -/
+def invRange : Option InvSample → Int × Int
+  | none => (0, -1)
+  | some s => if s.loop then (s.lps, s.lpe - s.lps) else if s.sloop then (s.sus, s.sue - s.sus) else (0, -1)
+
+/-- the store `xxs->data[lps + pos] ^= 0xff` is reached: sample present, data present, 8 bit -/
+def invCanStore : Option InvSample → Bool
+  | none => false
+  | some s => !(s.dataNull || s.is16)
+
+/-- body of `update_invloop` once `lps`, `len` are known -/
+def invloopCore (table : List Nat) (resetPos : Bool) (st : InvState) (lps len : Int) (canStore : Bool) :
+    InvState × Option Int :=
+  let pos0 : Int := if resetPos then 0 else st.pos
+  let count : Int := st.count + (table.getD st.speed 0 : Nat)
+  if len ≥ 0 ∧ count ≥ 128 then
+    -- `if (++xc->invloop.pos >= len) xc->invloop.pos = 0;`
+    let pos : Int := if pos0 + 1 ≥ len then 0 else pos0 + 1
+    ({ st with count := 0, pos := pos }, if canStore then some (lps + pos) else none)
+  else ({ st with count := count, pos := pos0 }, none)
+
+/-- `update_invloop(ctx, xc)`.  `resetPos` is `ctx->p.frame == 0 && TEST(NEW_INS)`, `x = none` is
+`libxmp_get_sample(..) == NULL`.  Returns the new `xc->invloop` and the index `i` of the one store
+`xxs->data[i] ^= 0xff`, if it is made. -/
+def invloopStep (table : List Nat) (resetPos : Bool) (st : InvState) (x : Option InvSample) : InvState × Option Int :=
+  invloopCore table resetPos st (invRange x).1 (invRange x).2 (invCanStore x)
+
 end Xmp.Wrap
